@@ -222,7 +222,7 @@ def obligations(tier, seed):
     obs = []
     if not q:
         obs.append(ob_combine('same5', None))
-    for g in (['same5', 'shift6', 'narrow7'] if q else ['shift6', 'wider6', 'narrow7', 'coarse7']):
+    for g in (['same5', 'shift6'] if q else ['shift6', 'wider6', 'narrow7', 'coarse7']):
         obs.append(ob_combine(g, None, free='ivzero'))
         obs.append(ob_combine(g, None, free='fit'))
     obs.append(ob_combine('wider6', 'mean', free='ivzero'))
